@@ -293,7 +293,7 @@ pub fn run(t: &[String]) -> String {
             }
         }
         // every site on the same string literal; the pruner's instant is observed with an Eq probe over
-        // one single-stamp zone per candidate (0 and the clamped values the other sites produced)
+        // one single-stamp zone per candidate (0, the values the other sites produced and their clamp at 0)
         "tsite_all" => {
             let lit = match String::from_utf8(unhex(&t[1])) { Ok(s) => s, Err(_) => return "BADUTF8".into() };
             let jv = Value::String(lit.clone());
@@ -327,7 +327,7 @@ pub fn run(t: &[String]) -> String {
             let mut cands: Vec<i64> = vec![0];
             for s in [&p_dt, &p_d, &w, &sn, &f] {
                 if let Some(v) = s.split(' ').nth(1).and_then(|x| x.parse::<i64>().ok()) {
-                    if matches!(s.split(' ').next(), Some("S") | Some("NUM") | Some("I")) { cands.push(v.max(0)); }
+                    if matches!(s.split(' ').next(), Some("S") | Some("NUM") | Some("I")) { cands.push(v.max(0)); cands.push(v); }
                 }
             }
             cands.sort();
